@@ -813,3 +813,217 @@ end VL.Score
 namespace VL.Score
 instance (scores : ScoreTable) : Decidable (TableWF scores) := by unfold TableWF ckeys; infer_instance
 end VL.Score
+
+namespace VL.Score
+open VL VL.Appr
+
+set_option linter.unusedSimpArgs false
+
+/-! ### fuel adequacy of the `_tiebreak_default` model -/
+
+/-- what the batch size guarantees on a well-formed non-empty table whose medians exist -/
+theorem batch_facts {p0 : Cand × CScores} {ps : ScoreTable} (hwf : TableWF (p0 :: ps)) {medians : Votes}
+    (hm : aggregate .medianLow (p0 :: ps) = .ok medians) :
+    1 ≤ batchSize (p0 :: ps) medians ∧
+    (∀ i, 1 ≤ i → i < batchSize (p0 :: ps) medians → StableAt (p0 :: ps) medians i) ∧
+    (∀ p ∈ p0 :: ps, batchSize (p0 :: ps) medians ≤ getCount p.2 (getD medians p.1 0)) := by
+  obtain ⟨hcc1, hccle⟩ := batchSize_spec p0 ps medians
+  set cc := batchSize (p0 :: ps) medians with hcc
+  have hmed : ∀ p ∈ p0 :: ps, aggregateOne .medianLow p.2 = .ok (getD medians p.1 0) := aggregate_lookup hm hwf.1
+  have hstable : ∀ i, 1 ≤ i → i < cc → StableAt (p0 :: ps) medians i := by
+    intro i hi1 hicc p hp
+    rcases hccle with h1 | hle
+    · omega
+    · have hlt : i < candClosest medians p := lt_of_lt_of_le hicc (hle p hp)
+      unfold candClosest at hlt
+      simp only at hlt
+      obtain ⟨w1, w2⟩ := hwf.2 p hp
+      have ha : i < ceilAbs (((countGe p.2 (getD medians p.1 0) : Int) : Rat) - ((totalCount p.2 : Int) : Rat) / 2) := by
+        split at hlt
+        · rename_i hba; omega
+        · exact hlt
+      have hb : i < ceilAbs (((countGt p.2 (getD medians p.1 0) : Int) : Rat) - ((totalCount p.2 : Int) : Rat) / 2) := by
+        split at hlt
+        · exact hlt
+        · rename_i hba; omega
+      exact median_stable w1 w2 (hmed p hp) i (by omega) ha hb
+  refine ⟨hcc1, hstable, ?_⟩
+  intro p hp
+  by_cases h1 : cc = 1
+  · have := median_count_pos (hwf.2 p hp).1 (hmed p hp); omega
+  · have := (hstable (cc - 1) (by omega) (by omega) p hp).1; omega
+
+theorem totalCount_append (a b : CScores) : totalCount (a ++ b) = totalCount a + totalCount b := by
+  simp [totalCount]
+
+theorem totalCount_setCount_of_mem {cs : CScores} (hnd : (ckeys cs).Nodup) {m : Rat} {c : Int} (h : (m, c) ∈ cs) (n : Int) :
+    totalCount (setCount cs m n) = totalCount cs - c + n := by
+  obtain ⟨pre, post, hcs, hpre, _⟩ := split_of_mem hnd h
+  rw [hcs, setCount_split c n hpre, totalCount_append, totalCount_append]
+  simp [totalCount]; ring
+
+theorem median_entry {cs : CScores} {m : Rat} (hm : aggregateOne .medianLow cs = .ok m) :
+    ∃ c, (m, c) ∈ cs ∧ 0 < c := by
+  obtain ⟨⟨p, hp, hpm, hppos⟩, _⟩ := (medianLow_iff cs m).mp hm
+  exact ⟨p.2, by rw [← hpm]; exact hp, hppos⟩
+
+theorem sum_map_dec {α : Type} (l : List α) (f g : α → Nat) (h : ∀ x ∈ l, g x + 1 ≤ f x) :
+    (l.map g).sum + l.length ≤ (l.map f).sum := by
+  induction l with
+  | nil => simp
+  | cons x xs ih =>
+    have := ih (fun y hy => h y (List.mem_cons_of_mem _ hy))
+    have hx := h x List.mem_cons_self
+    simp only [List.map_cons, List.sum_cons, List.length_cons]
+    omega
+
+theorem sum_filter_le {α : Type} (l : List α) (P : α → Bool) (f : α → Nat) :
+    ((l.filter P).map f).sum ≤ (l.map f).sum := by
+  induction l with
+  | nil => simp
+  | cons x xs ih =>
+    by_cases h : P x = true
+    · simp [List.filter_cons, h]; exact ih
+    · have h' : P x = false := by simpa using h
+      simp only [List.filter_cons, h', Bool.false_eq_true, if_false, List.map_cons, List.sum_cons]
+      omega
+
+theorem firstTie_succ {l : List Slot} {i : Nat} (h : firstTie l = some (i + 1)) : ∃ c rest, l = Slot.cand c :: rest := by
+  cases l with
+  | nil => simp [firstTie] at h
+  | cons s rest =>
+    cases s with
+    | cand c => exact ⟨c, rest, rfl⟩
+    | tie T => simp [firstTie] at h
+
+theorem medianLow_error {l : List Rat} {e : Err} (h : medianLow l = .error e) :
+    e = .other "StatisticsError" ∨ e = .other "IndexError" := by
+  unfold medianLow at h
+  simp only at h
+  split at h
+  · injection h with h; exact Or.inl h.symm
+  · split at h
+    · cases h
+    · injection h with h; exact Or.inr h.symm
+
+theorem aggregate_medianLow_error : ∀ {t : ScoreTable} {e : Err}, aggregate .medianLow t = .error e →
+    e = .other "StatisticsError" ∨ e = .other "IndexError" := by
+  intro t
+  induction t with
+  | nil => intro e h; simp [aggregate] at h; cases h
+  | cons p ps ih =>
+    intro e h
+    unfold aggregate at h
+    rw [List.mapM_cons] at h
+    cases hv : aggregateOne .medianLow p.2 with
+    | error e' =>
+      rw [hv] at h
+      injection h with h
+      subst h
+      unfold aggregateOne at hv
+      exact medianLow_error hv
+    | ok v =>
+      rw [hv] at h
+      cases hr : ps.mapM (fun p => do let v ← aggregateOne .medianLow p.2; pure (p.1, v)) with
+      | error e' =>
+        rw [hr] at h
+        injection h with h
+        subst h
+        exact ih hr
+      | ok r => rw [hr] at h; cases h
+
+/-- **Fuel adequacy.**  On a well-formed table, `Σ counts + #candidates + 1` units of fuel (what `majorityJudgment` passes)
+    suffice: every pass either ends, or splits off at least one clear winner, or removes at least one grade from every
+    candidate; the model of `_tiebreak_default` never reports the fuel error. -/
+theorem tiebreakDefault_fuel : ∀ (fuel : Nat) (scores : ScoreTable) (n : Nat), TableWF scores → tableFuel scores ≤ fuel →
+    tiebreakDefault fuel scores n ≠ .error (.other "Fuel") := by
+  intro fuel
+  induction fuel with
+  | zero => intro scores n _ h; unfold tableFuel at h; omega
+  | succ fuel ih =>
+    intro scores n hwf hfuel
+    cases scores with
+    | nil => simp [tiebreakDefault]
+    | cons p0 ps =>
+      by_cases hmx : maxTotal (p0 :: ps) p0 = 0
+      · rw [(both_mx0 fuel p0 ps n hmx).1]; intro h; cases h
+      · cases hm : aggregate .medianLow (p0 :: ps) with
+        | error e =>
+          rw [(both_aggerr fuel p0 ps n e hmx hm).1]
+          intro h
+          injection h with h
+          rcases aggregate_medianLow_error hm with h' | h' <;> rw [h'] at h <;> injection h with h <;> exact absurd h (by decide)
+        | ok medians =>
+          cases ht : firstTie (getNBest medians n) with
+          | none => rw [(both_none fuel p0 ps n medians hmx hm ht).1]; intro h; cases h
+          | some i =>
+            cases i with
+            | succ i =>
+              rw [(both_succ fuel p0 ps n i medians hmx hm ht).1]
+              have hwfr : TableWF (restAfter (p0 :: ps) medians n i) := tableWF_filter hwf _
+              -- a clear winner leaves the table
+              obtain ⟨c, rest, hbest⟩ := firstTie_succ ht
+              have hc : c ∈ (p0 :: ps).map (·.1) := by
+                have := getNBest_slotIn medians n (Slot.cand c) (by rw [hbest]; exact List.mem_cons_self)
+                rw [aggregate_keys hm] at this
+                exact this
+              obtain ⟨p, hp, hpc⟩ := List.mem_map.mp hc
+              have hlen : (restAfter (p0 :: ps) medians n i).length < (p0 :: ps).length := by
+                unfold restAfter
+                apply List.length_filter_lt_length_iff_exists.mpr
+                refine ⟨p, hp, ?_⟩
+                rw [hbest, hpc]
+                simp [slotCands]
+              have hsum : ((restAfter (p0 :: ps) medians n i).map (fun p => (totalCount p.2).toNat)).sum ≤
+                  ((p0 :: ps).map (fun p => (totalCount p.2).toNat)).sum := sum_filter_le _ _ _
+              have hf : tableFuel (restAfter (p0 :: ps) medians n i) ≤ fuel := by
+                unfold tableFuel at hfuel ⊢; omega
+              have := ih _ (n - (i + 1)) hwfr hf
+              cases hrec : tiebreakDefault fuel (restAfter (p0 :: ps) medians n i) (n - (i + 1)) with
+              | error e =>
+                rw [hrec] at this
+                intro h
+                apply this
+                simp only [Except.map] at h
+                exact h
+              | ok r => intro h; cases h
+            | zero =>
+              rw [default_step fuel p0 ps n medians hmx hm ht]
+              obtain ⟨hcc1, _, hcount⟩ := batch_facts hwf hm
+              have hwfcc : TableWF (stepBy (p0 :: ps) medians (batchSize (p0 :: ps) medians)) :=
+                stepBy_wf hwf medians (by omega) hcount
+              have hmed : ∀ p ∈ p0 :: ps, aggregateOne .medianLow p.2 = .ok (getD medians p.1 0) :=
+                aggregate_lookup hm hwf.1
+              have hdec : ((stepBy (p0 :: ps) medians (batchSize (p0 :: ps) medians)).map
+                    (fun p => (totalCount p.2).toNat)).sum + (p0 :: ps).length ≤
+                  ((p0 :: ps).map (fun p => (totalCount p.2).toNat)).sum := by
+                unfold stepBy
+                rw [List.map_map]
+                apply sum_map_dec
+                intro p hp
+                simp only [Function.comp]
+                obtain ⟨c, hc, hcpos⟩ := median_entry (hmed p hp)
+                have hgc := getCount_of_mem (hwf.2 p hp).1 hc
+                rw [totalCount_setCount_of_mem (hwf.2 p hp).1 hc, hgc]
+                have hle := hcount p hp
+                rw [hgc] at hle
+                have htot : 0 ≤ totalCount p.2 - c := by
+                  have := totalCount_setCount_of_mem (hwf.2 p hp).1 hc 0
+                  have hnn : 0 ≤ totalCount (setCount p.2 (getD medians p.1 0) 0) := by
+                    rw [totalCount_eq_wTotal (by
+                      intro q hq
+                      rcases setCount_entries _ _ _ q hq with h | h
+                      · exact (hwf.2 p hp).2 q h
+                      · rw [h])]
+                    exact Int.natCast_nonneg _
+                  omega
+                omega
+              have hlen : (stepBy (p0 :: ps) medians (batchSize (p0 :: ps) medians)).length = (p0 :: ps).length := by
+                unfold stepBy; simp
+              have hf : tableFuel (stepBy (p0 :: ps) medians (batchSize (p0 :: ps) medians)) ≤ fuel := by
+                unfold tableFuel at hfuel ⊢
+                simp only [List.length_cons] at hdec hlen hfuel ⊢
+                omega
+              exact ih _ n hwfcc hf
+
+end VL.Score
